@@ -45,3 +45,86 @@
     ) -> crate::Result<()> {
         Ok(())
     }
+
+    pub(crate) fn end_marker_stub<W: Write>(_s: &mut LZMAEncoder, _rc: &mut RangeEncoder<W>) -> crate::Result<()> { Ok(()) }
+    pub(crate) fn enc_new_zeroed(_mode: crate::EncodeMode, _lc: u32, _lp: u32, _pb: u32, _mf: crate::MFType, _depth: i32, _dict: u32, _nice: usize) -> (LZMAEncoder, LZMAEncoderModes) {
+        unsafe { core::mem::MaybeUninit::<(LZMAEncoder, LZMAEncoderModes)>::zeroed().assume_init() }
+    }
+    fn lzma_opts(dict: u32, lc: u32, lp: u32, pb: u32) -> LZMAOptions {
+        LZMAOptions { dict_size: dict, lc, lp, pb, mode: crate::EncodeMode::Fast, nice_len: 32, mf: crate::MFType::HC4, depth_limit: 0, preset_dict: None }
+    }
+
+    /// C03.lzma.hdr / C01.l1.hdr / C18.lzma: the real LZMAWriter::new writes the 13-byte .lzma header
+    /// props | dict size (u32 LE) | uncompressed size (u64 LE, all ones when unknown) exactly when a header is requested,
+    /// for every in-range lc/lp/pb, every dictionary size and every declared size; without header nothing is written.
+    #[kani::proof]
+    #[kani::unwind(10)]
+    //@ERR
+    #[kani::stub(crate::enc::encoder::LZMAEncoder::new, crate::enc::lzma_writer::verif_kani::enc_new_zeroed)]
+    fn c03_lzma_header_bytes() {
+        let (lc, lp, pb): (u32, u32, u32) = (vk::any(), vk::any(), vk::any());
+        vk::assume(lc <= 8 && lp <= 4 && pb <= 4);
+        let dict: u32 = vk::any();
+        let declared: bool = vk::any();
+        let size: u64 = vk::any();
+        let use_header: bool = vk::any();
+        let expected = if declared { Some(size) } else { None };
+        let w = LZMAWriter::new(vk::Sink::<16>::new(), &lzma_opts(dict, lc, lp, pb), use_header, !declared, expected);
+        match w {
+            Ok(mut w) => {
+                let sink = w.rc.inner();
+                if use_header {
+                    assert!(sink.len == 13);
+                    assert!(sink.buf[0] as u32 == (pb * 5 + lp) * 9 + lc);
+                    assert!(sink.buf[1..5] == dict.to_le_bytes());
+                    assert!(sink.buf[5..13] == (if declared { size } else { u64::MAX }).to_le_bytes());
+                } else {
+                    assert!(sink.len == 0);
+                }
+                assert!(w.current_uncompressed_size == 0 && w.expected_uncompressed_size == expected && w.use_end_marker == !declared);
+                assert!(w.props() as u32 == (pb * 5 + lp) * 9 + lc);
+                core::mem::forget(w);
+            }
+            Err(_) => assert!(false),
+        }
+    }
+
+    /// C18.lzma: a writer with a declared size E accepts writes exactly up to E bytes in total (a write that would exceed
+    /// E is refused with InvalidInput and consumes nothing), counts every accepted byte once, and finish() succeeds iff
+    /// exactly E bytes were written; without a declared size everything is accepted. (Encoder by contract.)
+    #[kani::proof]
+    #[kani::unwind(10)]
+    //@ERR
+    //@PAYLOAD_LZMA_REALFIN
+    fn c18_lzma_expected_size() {
+        use crate::vk::{pl_reset, PL_CUR_IN};
+        pl_reset(1);
+        let declared: bool = vk::any();
+        let e: u64 = vk::any();
+        vk::assume(e <= 200);
+        let mut w = match LZMAWriter::new(vk::Sink::<16>::new(), &lzma_opts(4096, 3, 0, 2), false, !declared, if declared { Some(e) } else { None }) {
+            Ok(w) => w, Err(_) => { assert!(false); return; }
+        };
+        static DATA: [u8; 128] = [9u8; 128];
+        let n1: usize = vk::any();
+        let n2: usize = vk::any();
+        vk::assume(n1 <= 128 && n2 <= 128);
+        let r1 = w.write(&DATA[..n1]);
+        let ok1 = !declared || n1 as u64 <= e;
+        assert!(r1.is_ok() == ok1);
+        let a1 = if ok1 { n1 as u64 } else { 0 };
+        if let Ok(k) = r1 { assert!(k == n1); }
+        if let Err(ref er) = r1 { assert!(vk::kind_of(er) == vk::Kind::InvalidInput); }
+        assert!(w.get_uncompressed_size() == a1);
+        let r2 = w.write(&DATA[..n2]);
+        let ok2 = !declared || a1 + n2 as u64 <= e;
+        assert!(r2.is_ok() == ok2);
+        let total = a1 + if ok2 { n2 as u64 } else { 0 };
+        assert!(w.get_uncompressed_size() == total);
+        assert!(unsafe { PL_CUR_IN } == total);          // the encoder received exactly the accepted bytes
+        let fin = w.finish();
+        assert!(fin.is_ok() == (!declared || total == e));
+        crate::vcover!(declared && fin.is_ok() && total > 0);
+        crate::vcover!(declared && !ok2 && ok1);
+        core::mem::forget(fin);
+    }
